@@ -29,7 +29,7 @@ from ..supervisor import run_seed
 
 PROPERTY_IDS = ["C10"]
 LEVEL = "exploration"
-WORLD_TIMEOUT = 400
+WORLD_TIMEOUT = 900
 WORLD_PIPE = None
 CONTEXT_OPS = ()
 SALTS = 4
@@ -227,9 +227,25 @@ def giant_shift(e, state, depth=0):
     return False
 
 
+HUGE = 4000
+
+
+def map_size(m):
+    from ..heap import tree_size
+
+    try:
+        return sum(tree_size(v) + (tree_size(l) if l._is_ptr else 0) for l, v in m)
+    except Exception:
+        return 0
+
+
 def observe_map(m, salt, route=">>"):
     """-> ["ok", {loc: [size, v|None]}] or ["exc", type]"""
     try:
+        if map_size(m) > HUGE:
+            # amoco walks expressions as trees: a map whose values share sub-expressions many
+            # times over takes minutes to evaluate or print (a C01/C17 matter, not a history effect)
+            return ["skipped", "huge-map"]
         st0 = state_for(m, salt)
         for l, v in m:
             if giant_shift(v, st0) or (l._is_ptr and giant_shift(l, st0)):
@@ -286,6 +302,8 @@ def decode_fp(instrs):
 
 def compare_obs(first, now):
     """-> (decided, difference or None)"""
+    if first[0] == "skipped" or now[0] == "skipped":
+        return 0, None  # not observed (guards of the harness): incomparable
     if first[0] != now[0]:
         return 1, {"kind": "outcome-kind", "first": first[0] if first[0] == "ok" else first, "now": now[0] if now[0] == "ok" else now}
     if first[0] != "ok":
@@ -570,6 +588,9 @@ class World(object):
                 a, b = self.maps.get(op["m1"]), self.maps.get(op["m2"])
                 if a is None or b is None or a["m"] is None or b["m"] is None:
                     return None
+                if map_size(a["m"]) + map_size(b["m"]) > HUGE:
+                    st.hit("compose-skipped:large-map")
+                    return None
                 try:
                     bm = b["m"]
                     ck = ()
@@ -631,7 +652,7 @@ class World(object):
                 # instruction (amoco's simplifier is exponential there: a C01/C17 matter)
                 from ..heap import tree_size
 
-                if sum(tree_size(v) for _, v in mp["m"]) > 600 or len(blk["instrs"]) > 4:
+                if map_size(mp["m"]) > 600 or len(blk["instrs"]) > 4:
                     st.hit("extend-skipped:large-map")
                     return None
                 try:
@@ -653,7 +674,7 @@ class World(object):
                     self.maps[op["id"]] = {"key": ("extend", how) + mp["key"] + (blk["isa"], tuple(blk["ins"]), blk["addr"]), "m": None, "exc": type(e).__name__, "born": self.step_no, "fresh": True}
             elif k == "str":
                 mp = self.maps.get(op["map"])
-                if mp is not None and mp["m"] is not None:
+                if mp is not None and mp["m"] is not None and map_size(mp["m"]) <= HUGE:
                     try:
                         str(mp["m"])
                     except Exception:
